@@ -64,9 +64,128 @@ fn section(p: &mut Protected, me: u32, hold: u32, c: &Counters, rng: &mut Rng) {
     c.acquisitions.fetch_add(1, Relaxed);
 }
 
+// --- real-time scheduling on one CPU ------------------------------------------------------------------
+// Under SCHED_FIFO a thread keeps the CPU until it blocks or yields. With one hardware thread, a waiter of the
+// lock that only spins never lets the (descheduled) holder run again: "a blocking acquisition succeeds once the
+// holder leaves, whether the machine reports one hardware thread or many" then fails for good. The phase needs the
+// right to use SCHED_FIFO (root / CAP_SYS_NICE) and a process pinned to one CPU; otherwise it is skipped.
+#[cfg(all(target_os = "linux", not(miri)))]
+mod rt {
+    #[repr(C)]
+    pub struct SchedParam {
+        pub sched_priority: i32,
+    }
+    extern "C" {
+        pub fn pthread_self() -> usize;
+        pub fn pthread_setschedparam(th: usize, policy: i32, p: *const SchedParam) -> i32;
+    }
+    pub const SCHED_FIFO: i32 = 1;
+    pub const SCHED_OTHER: i32 = 0;
+    pub fn set_fifo(prio: i32) -> bool {
+        unsafe { pthread_setschedparam(pthread_self(), SCHED_FIFO, &SchedParam { sched_priority: prio }) == 0 }
+    }
+    pub fn set_other() {
+        unsafe {
+            pthread_setschedparam(pthread_self(), SCHED_OTHER, &SchedParam { sched_priority: 0 });
+        }
+    }
+}
+
+/// returns (ran, violation)
+#[cfg(all(target_os = "linux", not(miri)))]
+fn fifo_phase(rounds: u64) -> (u64, Option<String>) {
+    use std::sync::atomic::Ordering::SeqCst;
+    if kanal::verif::get_parallelism() != 1 || !rt::set_fifo(20) {
+        return (0, None);
+    }
+    let mut ran = 0;
+    let mut viol = None;
+    for round in 0..rounds {
+        let m: Arc<Mutex<u64>> = Arc::new(Mutex::new(0));
+        let holding = Arc::new(AtomicBool::new(false));
+        let acquired = Arc::new(AtomicBool::new(false));
+        let ok = Arc::new(AtomicBool::new(true));
+        let holder = {
+            let (m, holding, ok) = (m.clone(), holding.clone(), ok.clone());
+            std::thread::spawn(move || {
+                if !rt::set_fifo(10) {
+                    ok.store(false, SeqCst);
+                }
+                let mut g = m.lock();
+                holding.store(true, SeqCst);
+                // descheduled inside the critical section
+                std::thread::sleep(Duration::from_millis(30 + 10 * (round % 3)));
+                *g += 1;
+                drop(g);
+            })
+        };
+        while !holding.load(SeqCst) {
+            std::thread::sleep(Duration::from_millis(1));
+        }
+        let waiter = {
+            let (m, acquired, ok) = (m.clone(), acquired.clone(), ok.clone());
+            std::thread::spawn(move || {
+                if !rt::set_fifo(10) {
+                    ok.store(false, SeqCst);
+                }
+                let mut g = m.lock();
+                *g += 1;
+                drop(g);
+                acquired.store(true, SeqCst);
+            })
+        };
+        // this thread (priority 20) sleeps; it preempts the others whenever its timer fires
+        let t0 = std::time::Instant::now();
+        while !acquired.load(SeqCst) && t0.elapsed() < Duration::from_secs(5) {
+            std::thread::sleep(Duration::from_millis(5));
+        }
+        if !ok.load(SeqCst) {
+            rt::set_other();
+            return (ran, None);
+        }
+        if !acquired.load(SeqCst) {
+            viol = Some(format!(
+                "one CPU, SCHED_FIFO, equal priorities: a blocking acquisition had not succeeded 5 s after the holder's 30-50 ms sleep inside the critical section should have ended (round {}): the waiter never lets the holder run",
+                round
+            ));
+            // the two threads cannot be recovered: report and leave
+            break;
+        }
+        let _ = holder.join();
+        let _ = waiter.join();
+        ran += 1;
+    }
+    rt::set_other();
+    (ran, viol)
+}
+#[cfg(not(all(target_os = "linux", not(miri))))]
+fn fifo_phase(_rounds: u64) -> (u64, Option<String>) {
+    (0, None)
+}
+
+static FIFO_RAN: std::sync::atomic::AtomicU64 = std::sync::atomic::AtomicU64::new(0);
+
 fn main() {
     let a = kverif::args();
     let seed = kverif::arg_u64(&a, "seed", 1);
+    let fifo_rounds = kverif::arg_u64(&a, "fifo-rounds", 0);
+    if fifo_rounds > 0 {
+        // before anything else: a stuck pair of real-time threads cannot be joined
+        let (ran, v) = fifo_phase(fifo_rounds);
+        if let Some(v) = v {
+            let out = J::O(vec![
+                ("engine".into(), J::s("lockmon")),
+                ("seed".into(), J::U(seed)),
+                ("parallelism_reported".into(), J::U(kanal::verif::get_parallelism() as u64)),
+                ("fifo_rounds".into(), J::U(ran)),
+                ("violations".into(), J::A(vec![J::s(v)])),
+                ("nviolations".into(), J::U(1)),
+            ]);
+            println!("{}", out.to_string());
+            std::process::exit(1);
+        }
+        FIFO_RAN.store(ran, std::sync::atomic::Ordering::Relaxed);
+    }
     let rounds = kverif::arg_u64(&a, "rounds", 6);
     let iters = kverif::arg_u64(&a, "iters", 3000);
     let maxthreads = kverif::arg_u64(&a, "max-threads", 16);
@@ -256,6 +375,7 @@ fn main() {
         ("try_lock_against_frozen_holder".into(), J::U(frozen_try)),
         ("very_long_holds_survived".into(), J::U(long_holds)),
         ("very_long_hold_ms".into(), J::U(long_hold_ms)),
+        ("fifo_one_cpu_rounds".into(), J::U(FIFO_RAN.load(std::sync::atomic::Ordering::Relaxed))),
         ("max_simultaneous_waiters".into(), J::U(c.max_waiting.load(Relaxed) as u64)),
         ("hold_classes".into(), J::A(c.hold.iter().map(|h| J::U(h.load(Relaxed))).collect())),
         ("inconclusive".into(), J::A(inconclusive.iter().map(|s| J::s(s.clone())).collect())),
